@@ -57,6 +57,7 @@ REFUSALS = {
     'add_eltorito:load-segment-too-big': ('plain', 'add_eltorito', ['/FOO.;1'], dict(boot_load_seg=65536)),
     'add_symlink:empty-target': ('rr', 'add_symlink', [], dict(symlink_path='/SYM.;1', rr_symlink_name='sym', rr_path='')),
     'add_symlink:empty-udf-target': ('udf', 'add_symlink', [], dict(udf_symlink_path='/sym', udf_target='')),
+    'add_symlink:udf-target-component-too-long': ('udf', 'add_symlink', [], dict(udf_symlink_path='/sym', udf_target='d/' + 'x' * 255)),
     # a Joliet / UDF path that names the root directory itself (K60: used to add an entry without a name)
     'add_fp:joliet-path-names-the-root': ('joliet', 'add_fp', ['FILE', 4], dict(joliet_path='/.')),
     'add_directory:udf-path-names-the-root': ('udf', 'add_directory', [], dict(udf_path='/x/..')),
